@@ -172,6 +172,18 @@ def run(analysis: Analysis, tier: str) -> RuleResult:
     from .c06 import allocator_gives_up_late
 
     allocator_gives_up_late(analysis, res, "C04-R1")
+    # "accepted messages": what Message.validate accepts is the statement's header / payload rules, whatever was
+    # validated before (C03-R4 / R4m as a lemma)
+    from . import c03
+
+    class _L:
+        extra = res.extra
+
+        @staticmethod
+        def add(rule, *a, **kw):
+            res.add("C04-L:" + rule, *a, **kw)
+
+    c03.header_rules(analysis, _L)
     specs = specs_for(analysis, tier)
     recs = common.pmap(analysis, pathsum.logic_records, specs)
     res.contexts = ["/".join(s) for s in specs]
